@@ -1,6 +1,9 @@
 import Gimli.Lemmas.Value
 import Gimli.Lemmas.OpTotal
 import Gimli.Lemmas.Capacity
+import Gimli.Lemmas.SimRun
+import Gimli.Lemmas.IterWrap
+import Gimli.Lemmas.RunLimit
 /-!
 # C07 — Expression decoding and evaluation equal the DWARF stack machine
 
@@ -15,6 +18,7 @@ resume answers.
 -/
 namespace Gimli.Props.C07
 open Gimli Gimli.Op Gimli.Eval Gimli.Value Gimli.Spec.Expr
+open Gimli.Sim (RunRel FinRel TokOk absScript absPiece)
 
 /-! ## (1) value arithmetic -/
 
@@ -51,6 +55,20 @@ theorem shift_count_unmasked_counterexample :
 theorem value_refines_unary (a : Nat) (ha : AddrSize a) (op : UnOp) (x : Value) (ix : IsInt x) (hx : WF x) :
     (unaryOf op x (maskOf a)).map (absV a) = unary a op (absV a x) :=
   unary_refines a ha op x ix hx
+
+/-- **`DW_OP_convert`** between integer types: the Model result denotes the Spec value wrapped
+into the target type (generic source read modulo the address size, signed sources sign extended). -/
+theorem value_refines_convert (a : Nat) (ha : AddrSize a) (v : Value) (hv : VOk v) (t : ValueType)
+    (ht : t.kind ≠ .float) :
+    ∃ r, v.convert t (maskOf a) = .ok r ∧ absV a r = convertInt a (absV a v) t ∧ VOk r :=
+  Sim.convert_refines a ha v hv t ht
+
+/-- **`DW_OP_reinterpret`** between integer types: `TypeMismatch` exactly when the sizes differ
+(the generic type has the address size), otherwise the same bits read in the target type. -/
+theorem value_refines_reinterpret (a : Nat) (ha : AddrSize a) (v : Value) (hv : VOk v) (t : ValueType)
+    (ht : t.kind ≠ .float) :
+    Sim.Sim (fun r sr => sr = absV a r ∧ VOk r) (v.reinterpret t (maskOf a)) (reinterpretInt a (absV a v) t) :=
+  Sim.reinterpret_refines a ha v hv t ht
 
 /-- `sign_extend(value, mask)` is the two's complement reading of the low `8a` bits
 (the xor / subtract trick of `value.rs`, proved without `bv_decide`). -/
@@ -125,6 +143,35 @@ theorem iter_limit_terminates (m : Nat) (hm : m + 1 < 2 ^ 32) (fuel : Nat) (s : 
     (evaluateInternal fuel s).Normal :=
   evalInternal_terminates m hm fuel s hmax hit hf
 
+/-- **`iter_limit`** over any sequence of resume answers. A whole run — `evaluate()`, then one
+`resume_with_*` per request, answers from an arbitrary script `toks` — of an evaluator with
+`max_iterations = m`, given `m + 2` fuel per call: never runs out of fuel (it ends with a result,
+`TooManyIterations` or another error, or at the end of the script), and the state it ends in has
+executed at most `m` operations in total (`iteration ≤ m`) and decoded at most two per iteration. -/
+theorem iter_limit_run (m : Nat) (hm : m + 1 < 2 ^ 32) (fuel : Nat) (hf : m + 2 ≤ fuel) (toks : List Tok) (s : Eval)
+    (hmax : s.cfg.maxIterations = some m) (hit : s.iteration ≤ m) :
+    (run fuel toks s).2.1 ≠ .diverged ∧
+      ∀ e, (run fuel toks s).2.2 = some e →
+        e.iteration ≤ m ∧ e.decodes - s.decodes ≤ 2 * (e.iteration - s.iteration) := by
+  obtain ⟨h1, h2⟩ := run_limit m hm fuel hf toks s hmax hit
+  refine ⟨h1, fun e he => ?_⟩
+  obtain ⟨h3, h4⟩ := h2 e he
+  exact ⟨h3, by omega⟩
+
+/-- **`iter_limit` is false for `max_iterations = u32::MAX`** (finding C07-2; the reason for the
+hypothesis `m + 1 < 2^32` above). On the endless loop `DW_OP_skip -3` with that limit, in a build
+without overflow checks the evaluator never reports the limit, whatever the fuel: the `u32` counter
+wraps from `u32::MAX` to 0. -/
+theorem iter_limit_u32_max_counterexample (fuel it dec : Nat) (hit : it < 2 ^ 32) :
+    evaluateInternal fuel (loopState .release it dec) = .diverge :=
+  selfLoop_release_never_stops fuel it dec hit
+
+/-- … and in a build with overflow checks the increment panics after `u32::MAX` iterations
+(observed on the real crate at `src/read/op.rs:2024`). -/
+theorem iter_limit_u32_max_panics (dec : Nat) :
+    evaluateInternal ((2 ^ 32 - 1) + 1) (loopState .debug 0 dec) = .panic "attempt to add with overflow" :=
+  selfLoop_debug_panics (2 ^ 32 - 1) 0 dec (by omega)
+
 /-- a looping program: the limit error, not a hang (`DW_OP_skip -3` forever, limit 5) -/
 example :
     (Eval.new .little ⟨4, .dwarf32, 4⟩ {} .debug [0x2f, 0xfd, 0xff] none none (some 5)).bind
@@ -150,5 +197,60 @@ theorem stack_capacity (fuel : Nat) (s : Eval) :
 example :
     (Eval.new .little ⟨4, .dwarf32, 4⟩ { stack := some 3 } .debug [0x30, 0x31, 0x32, 0x33] none none none).bind
       (fun s => (evaluate 9 s).1.map (·.1)) = .err .rStackFull := by decide
+
+/-! ## (5) whole evaluations -/
+
+/-- **`eval_refines`** (partial — see below). Take any expression `code` (shorter than `2^63`
+bytes), byte order, encoding with address size `a ∈ {1,2,4,8}`, optional initial value and object
+address, any script `toks` of resume answers (`TokOk`: integer values that fit their type, any
+called expressions shorter than `2^63` bytes) and any fuel (`hfuel`: the `u32` iteration counter
+cannot wrap within the run). Run the Model evaluator from `Evaluation::new` (heap storage, no
+iteration limit) through `evaluate()` and one `resume_with_*` per request, and run the Spec
+machine (`Spec/Machine.lean`: mathematical integers, generic values modulo `2^(8a)`, pc as an
+offset, return stack, `OpTable` decode) on the same script. Then (`RunRel`), unless the Spec run
+reaches a point it leaves unspecified:
+
+* both produce **the same requests in the same order** — register, memory (address, size, address
+  space, base type), frame base, CFA, TLS, base type, address index (with the relocate flag),
+  entry value, parameter reference, called DIE: exactly what the operation names — and continue
+  identically from each answer;
+* both **end the same way** (`FinRel`): the same named error (`DivisionByZero`, `BadBranchTarget`,
+  `NotEnoughStackItems`, `InvalidPiece`, `InvalidExpressionTerminator`, type errors, …), or
+  completion with the same pieces (sizes, bit offsets, locations; values and addresses inside them
+  equal *modulo the address size* for generic values and exactly for typed ones) and the same
+  value result; or both ran out of the same fuel / script.
+
+Typed values are inside: `DW_OP_const_type`, `DW_OP_convert`, `DW_OP_reinterpret`,
+`DW_OP_regval_type`, `DW_OP_deref_type` with integer base types and typed integer answers.
+
+PARTIAL. Not covered (the Spec says `unspecified`, the theorem then claims nothing): the shifts
+`DW_OP_shl/shr/shra` (finding C07-1: the Model, like `value.rs`, uses an unmasked generic count)
+and floating point values (float answers, float base types). Fixed-capacity storage and the
+iteration limit are related to this run by `stack_capacity` and `iter_limit`.
+The full statement drops "unless unspecified" and the storage / limit restrictions. -/
+theorem eval_refines_partial (a : Nat) (ha : AddrSize a) (e : Endian) (enc : Encoding)
+    (henc : enc.addressSize = a) (mode : Mode) (code : Bytes) (hlen : code.length < 2 ^ 63)
+    (init obj : Option Nat) (hinit : ∀ v, init = some v → v < 2 ^ 64) (hobj : ∀ v, obj = some v → v < 2 ^ 64)
+    (fuel : Nat) (toks : List Eval.Tok) (htoks : ∀ t ∈ toks, TokOk t)
+    (hfuel : (toks.length + 1) * fuel < 2 ^ 32) (s : Eval)
+    (hnew : Eval.new e enc {} mode code init obj none = .ok s) :
+    RunRel a (Eval.run fuel toks s)
+      (Spec.Machine.runAll ⟨e, enc, obj⟩ fuel (absScript a toks) code init) :=
+  Sim.run_refines a ha e enc henc mode code hlen init obj hinit hobj fuel toks htoks hfuel s hnew
+
+/-- the Spec machine is not vacuous: a program with a loop (`lit5; L: lit1 minus dup bra L`), a
+register request (`breg0 2`), arithmetic and a `stack_value` location is inside the fragment and
+evaluates to the value 9 after one request -/
+example :
+    Spec.Machine.runAll ⟨.little, ⟨4, .dwarf32, 4⟩, none⟩ 40 [fun _ => .register ⟨.generic, 7⟩]
+      [0x35, 0x31, 0x1c, 0x12, 0x28, 0xfa, 0xff, 0x70, 0x02, 0x22, 0x9f] none
+      = ([.requiresRegister 0 0, .complete], .done [⟨none, none, .value ⟨.generic, 9⟩⟩] none) := by decide
+
+/-- one step of the simulation, for reference: every operation of the fragment, on related
+machines, has related effects (`Sim.exec_sim`), e.g. a taken branch lands on the same offset -/
+example (a : Nat) (c : Config) (sc : Spec.Machine.SCfg) (hc : Sim.CfgRel a c sc) (op : Operation)
+    (hop : OpOk op) (m : Mach) (st : Spec.Machine.SState) (h : Sim.R a m st) :
+    Sim.Sim (Sim.EffRel a) (Eval.execute c op m) (Spec.Machine.exec sc op st) :=
+  Sim.exec_sim a c sc hc op hop m st h
 
 end Gimli.Props.C07
